@@ -29,7 +29,7 @@ DRO_DECL = ['lin', 'bnd', 'soc', 'ipc', 'exp', 'rob', 'ecn', 'late', 'evt', 'pow
 # definition of the history; the canonical fresh build writes that final definition once, directly.
 REDEF = {'dro': {'lsupp': ('supp0',), 'lsuppb': ('supp0',), 'lsuppw': ('supp0', 'supp1'), 'lprob': ('prob',),
                  'lprob0': ('prob',), 'reford': ('robset',)},
-         'ro': {'refor': ('rownset',)}}
+         'ro': {'refor': ('rownset',)}, 'rox': {}}
 REQUIRES = {'refor': 'rown', 'reford': 'rob'}      # 'forall again' needs the stated constraint
 
 
@@ -68,6 +68,9 @@ def _rownset(rso, z, ident):
 def _robset(z):
     return [z <= np.array([0.5, 0.75]), z >= np.array([-0.25, -0.5])]
 OPS = ['P', 'D', 'S', 'Sd', 'Q', 'G']
+# 'rox': an ro model whose deterministic part has ONLY exp-type constraints (no LinConstr / Bounds / norm at all)
+RX_DECL = ['x0', 'x1', 'x2', 'x3']
+DECLS = {'ro': RO_DECL, 'dro': DRO_DECL, 'rox': RX_DECL}
 
 
 class Env(object):
@@ -89,6 +92,14 @@ def base(fe, late_first=False, slots=None):
     e.w = None
     e.slots = dict(slots or {})      # canonical builds: final definition of every re-definable slot
     e.canonical = slots is not None
+    if fe == 'rox':
+        m = R['ro'].Model()
+        e.m = m
+        e.x = m.dvar(4)
+        m.st(rso.exp(-e.x) <= 1.0)              # x >= 0, written with an exp-type row only
+        m.min(W[:4] @ e.x)
+        e.nops += 4
+        return e
     if fe == 'ro':
         m = R['ro'].Model()
         e.m = m
@@ -124,9 +135,17 @@ def base(fe, late_first=False, slots=None):
 def declare(e, name):
     """Apply one declaration: expressions are created *now* (after whatever happened before)."""
     rso = C.R['rso']
-    m, x, z = e.m, e.x, e.z
+    m, x, z = e.m, e.x, getattr(e, "z", None)
     if e.canonical and name in REDEF[e.fe]:
         pass                # the final definition was written directly (base / the stated constraint)
+    elif name == 'x0':
+        m.st(rso.exp(-x[0]) <= 0.5)
+    elif name == 'x1':
+        m.st(rso.log(x[1]) >= 0.25)
+    elif name == 'x2':
+        m.st(rso.softplus(-x[2]) <= 0.25)
+    elif name == 'x3':
+        m.st(rso.exp(1 - 2 * x[3]) <= 1.0, rso.entropy(0.25 * x[2:4] + 0.125) >= 0.5)
     elif name == 'lin':
         m.st(2 * x[0] >= 2.5)
     elif name == 'bnd':
@@ -258,7 +277,7 @@ _FRESH = {}
 
 def fresh(fe, declared, sym):
     """Observation of `sym` on a fresh canonical build of the declared set."""
-    order = RO_DECL if fe == 'ro' else DRO_DECL
+    order = DECLS[fe]
     names = tuple(n for n in order if n in declared)
     slots = final_slots(fe, declared)
     key = (fe, names, tuple(sorted(slots.items())), sym)
@@ -426,7 +445,7 @@ def run_seq(case):
 # ------------------------------------------------------------------------------------------------ graph
 def state_key(e):
     m = e.m
-    if e.fe == 'ro':
+    if e.fe in ('ro', 'rox'):
         rc = m.rc_model
         impl = (m.pupdate, m.dupdate, m.primal is not None, m.dual is not None,
                 rc.pupdate, rc.dupdate, rc.primal is not None, rc.dual is not None)
